@@ -548,7 +548,22 @@ class Body:
                 return self._mk_proj(payloads[0], tuple(elems[2:]))
         # slices of slices: x.split_at(m) = (x[..m], x[m..]);  x[a..][i] = x[a+i];  x[a..e][b..] = x[a+b..e]; …
         # (value identity only: the bounds obligations of the intermediate slices are separate proof obligations)
-        if base[0] == "call" and base[1] in ("[T]::split_at", "core::slice::<impl [T]>::split_at") and len(base[2]) == 2 and elems[0] in ("0", "1"):
+        k_be = None
+        if base[0] == "call" and re.fullmatch(r"u(16|32|64)::to_be_bytes", base[1]) and len(base[2]) == 1:
+            if isinstance(elems[0], tuple) and elems[0][0] == "[]" and elems[0][1][0] == "const" and str(elems[0][1][1]).isdigit():
+                k_be = int(str(elems[0][1][1]))
+            elif isinstance(elems[0], str) and re.fullmatch(r"\[c(\d+)\]", elems[0]):
+                k_be = int(elems[0][2:-1])      # constant-index projection of an array pattern: let [hi, lo] = x.to_be_bytes()
+        if k_be is not None:
+            # x.to_be_bytes()[k] is byte k of x, most significant first:  (x >> 8*(n-1-k)) as u8
+            nbytes = int(base[1][1:base[1].index(":")]) // 8
+            k_ = k_be
+            if k_ < nbytes:
+                sh_ = 8 * (nbytes - 1 - k_)
+                xe = base[2][0]
+                be = ("cast", "u8", xe if sh_ == 0 else ("bin", "Shr", xe, ("const", str(sh_), "i32", None)))
+                return self._mk_proj(be, tuple(elems[1:]))
+        if base[0] == "call" and base[1] in ("[T]::split_at", "core::slice::<impl [T]>::split_at", "[T]::split_at_mut", "core::slice::<impl [T]>::split_at_mut") and len(base[2]) == 2 and elems[0] in ("0", "1"):
             x, m = base[2]
             rng = ("agg", "Range", (("const", "0", "usize", None), _plain(m)), ()) if elems[0] == "0" else ("agg", "RangeFrom", (_plain(m),), ())
             return self._mk_proj(self._mk_proj(x, (("[]", rng),)), tuple(elems[1:]))
@@ -640,6 +655,16 @@ class Body:
                     c_ = int(str(b_[3][1]))
                     if (b_[1] == "Rem" and c_ > 0 and c_ & (c_ - 1) == 0 and c_ <= 256) or (b_[1] == "BitAnd" and 0 <= c_ < 256):
                         b_ = ("bin", b_[1], b_[2][2], b_[3])
+                except ValueError:
+                    pass
+            if rv["op"] in ("Add", "Sub", "Mul", "AddUnchecked", "SubUnchecked", "MulUnchecked") and a_[0] == "const" and b_[0] == "const" and not a_[3] and not b_[3] \
+                    and a_[2] == b_[2] and a_[2] in _UW:
+                # literal arithmetic (a constant offset handed to an inlined helper: data[offset + 1] with offset = 4)
+                try:
+                    x_, y_ = int(str(a_[1])), int(str(b_[1]))
+                    v_ = {"A": x_ + y_, "S": x_ - y_, "M": x_ * y_}[rv["op"][0]]
+                    if 0 <= v_ < 2 ** _UW[a_[2]]:
+                        return ("const", str(v_), a_[2], None)
                 except ValueError:
                     pass
             return ("bin", rv["op"], a_, b_)
@@ -925,6 +950,51 @@ def _known_fns():
         return None
 
 
+def _whole_defs(body, l, nblocks):
+    """assignments / call destinations that define local l as a whole, in the caller's own blocks"""
+    out = []
+    for blk in body["blocks"][:nblocks]:
+        for st in blk["stmts"]:
+            if st.get("k") == "assign" and st["pl"]["l"] == l and not st["pl"]["p"]:
+                out.append(st)
+        tt = blk["term"]
+        if tt.get("k") == "call" and tt.get("dest") and tt["dest"]["l"] == l and not tt["dest"]["p"]:
+            out.append(tt)
+    return out
+
+
+def _moved_owner(body, a, nblocks):
+    """the caller's local (or parameter) whose value is moved, in whole, into this argument: follows the temporaries
+    rustc introduces (`_t = move x; f(move _t)`); None for copies, borrows, projections and by-reference types"""
+    if a.get("k") != "move" or a["pl"]["p"]:
+        return None
+    l = a["pl"]["l"]
+    ty = body["locals"][l]["ty"] if l < len(body["locals"]) else "&"
+    if ty.startswith("&") or ty.startswith("*"):
+        return None
+    for _ in range(4):
+        ds = _whole_defs(body, l, nblocks)
+        if len(ds) == 1 and ds[0].get("k") == "assign" and ds[0]["rv"]["k"] == "use" and ds[0]["rv"]["op"]["k"] == "move" and not ds[0]["rv"]["op"]["pl"]["p"]:
+            l = ds[0]["rv"]["op"]["pl"]["l"]
+        else:
+            break
+    return l
+
+
+def _rename_local(node, frm, to):
+    if isinstance(node, dict):
+        if "p" in node and node.get("l") == frm:
+            node["l"] = to
+        for k, v in node.items():
+            if k == "idx" and v == frm:
+                node[k] = to
+            else:
+                _rename_local(v, frm, to)
+    elif isinstance(node, list):
+        for x in node:
+            _rename_local(x, frm, to)
+
+
 def _remap(node, lo, bo, ret_target):
     """deep copy of a callee's block list with locals shifted by lo and block ids by bo"""
     if isinstance(node, dict):
@@ -990,6 +1060,13 @@ def inline_unknown_helpers(fns, known, depth=3):
                 body["blocks"].extend(newblocks)
                 blk = body["blocks"][bi]
                 for i, a in enumerate(t["args"]):
+                    owner = _moved_owner(body, a, len(body["blocks"]) - len(newblocks))
+                    if owner is not None:
+                        # the argument is moved in whole: the callee's parameter *is* the caller's value from here on
+                        # (the caller's local is dead after the move), so the parameter is renamed to it instead of
+                        # being bound by a copy - writes through the parameter then read as writes to the caller's value
+                        _rename_local(newblocks, lo + 1 + i, owner)
+                        continue
                     blk["stmts"].append({"k": "assign", "pl": {"l": lo + 1 + i, "p": []}, "rv": {"k": "use", "op": copy.deepcopy(a)}, "sp": sp})
                 blk["term"] = {"k": "goto", "target": bo, "sp": sp}
                 n_inl += 1
